@@ -337,6 +337,42 @@ def tracked_lineages(ctx):
                               "a %s of a tracked lineage (%s) has the links %s, the original %s" % (how, shape, [g[:2] for g in got], [w[:2] for w in want]), case)
                 return
         ctx.count("tracked_lineage_shapes")
+    # ---- links kept in one direction only, and a single cell taken out of its tree
+    for shape in ("mother links only", "daughter links only"):
+        m, d1, d2, g1 = cell(0, 4, 1), cell(1, 3, 2), cell(1, 3, 3), cell(2, 2, 4)
+        if shape == "mother links only":          # what a tracker that records "came from" writes
+            d1.py_set_parent(m); d2.py_set_parent(m); g1.py_set_parent(d1)
+        else:
+            m.py_set_daughters(d1, d2); d1.py_set_daughters(g1, None)
+        L = ExperimentalLineage({"X": 0, "Y": 1})
+        for c in (m, d1, d2, g1):
+            L.py_add_schnitz(c)
+        want = links(L)
+        for how, C in (("pickle", pickle.loads(pickle.dumps(L))), ("deepcopy", copy.deepcopy(L))):
+            case = {"tracked_lineage": shape, "how": how}
+            ctx.begin_case(case)
+            got = links(C)
+            ctx.evaluated()
+            if got != want:
+                ctx.violation("lineage-pickle/one-directional-links", "a %s of a tracked lineage (%s) has the links %s, the original %s"
+                              % (how, shape, [g[:2] for g in got], [w[:2] for w in want]), case)
+                return
+        ctx.count("tracked_lineage_shapes")
+    m, d1, d2 = cell(0, 4, 1), cell(1, 3, 2), cell(1, 3, 3)
+    m.py_set_daughters(d1, d2); d1.py_set_parent(m); d2.py_set_parent(m)
+    for how, c in (("pickle", pickle.loads(pickle.dumps(d1))), ("deepcopy", copy.deepcopy(d1))):
+        case = {"single_cell_of_a_tree": how}
+        ctx.begin_case(case)
+        ctx.evaluated()
+        mo = c.py_get_parent()
+        ok = (mo is not None and np.array_equal(np.array(mo.py_get_data()), np.array(m.py_get_data())) and np.array_equal(np.array(mo.py_get_time()), np.array(m.py_get_time()))
+              and mo.py_get_daughters()[0] is c and mo.py_get_daughters()[1] is not None
+              and np.array_equal(np.array(mo.py_get_daughters()[1].py_get_data()), np.array(d2.py_get_data())) and mo.py_get_daughters()[1].py_get_parent() is mo)
+        if not ok:
+            ctx.violation("lineage-pickle/single-cell", "a %s of one daughter cell taken on its own: its mother is %s (the original's mother holds %d rows and both daughters)"
+                          % (how, "missing" if mo is None else "not the same tree", len(m.py_get_time())), case)
+            return
+    ctx.count("single_cells_of_a_tree")
 
 
 TABLES = {}
